@@ -3,7 +3,7 @@
    call-convention switches, native signatures). Re-checked on every run. *)
 From Coq Require Import List ZArith Bool String.
 From RG.Base Require Import Outcome GoInt GoSlice.
-From RG.Quasigo Require Import Source Bytecode Compile VM Sem Guards Link ExprCorrect StmtCorrect FunCorrect Assemble Correct.
+From RG.Quasigo Require Import Source Bytecode Compile VM Sem Guards Link ExprCorrect StmtCorrect FunCorrect Assemble Correct Env.
 From RGW Require Import Gen_Quasigo Inst_Quasigo.
 Import ListNotations.
 Local Open Scope Z_scope.
@@ -40,7 +40,52 @@ Theorem assemble_simulates : forall names C, forallb encodable C = true ->
   forall pc i, instr_at C pc = Some i -> decode_at (the_cfg names) (assemble (the_cfg names) C) pc = Some i.
 Proof. intros names C. apply Correct.assemble_simulates. apply config_facts. Qed.
 
+(* ---- several units compiled into one environment (Env.v) ---- *)
+(* compiling further units (rules files) only appends to the table of user functions: every function ID handed out
+   earlier still denotes the same compiled function, and the table stays the compilation of the resolved sources *)
+Theorem load_units_extends : forall names us e, extends (the_cfg names) e (load_units (the_cfg names) us e).
+Proof. intros names. exact (Env.load_units_extends (the_cfg names)). Qed.
+
+Theorem load_units_inv : forall names us e, env_inv (the_cfg names) e -> env_inv (the_cfg names) (load_units (the_cfg names) us e).
+Proof. intros names. exact (Env.load_units_inv (the_cfg names)). Qed.
+
+(* whatever units are compiled later (equal-named functions, re-declarations, units that fail halfway), a function
+   compiled earlier - run on its bytes against the function table as it is afterwards - still returns what its source
+   means in Go, and fails when the Go run panics *)
+Theorem later_units_preserve_meaning : forall names nat_fun e us,
+  env_inv (the_cfg names) e -> in_scope (the_cfg names) (ev_srcs e) (ev_funcs e) = true ->
+  forall fuel id args cf, nthz (ev_funcs e) id = Some cf ->
+    nthz (ev_funcs (load_units (the_cfg names) us e)) id = Some cf /\
+    (forall r, call_sem (nat_sig (the_cfg names)) nat_fun (ev_srcs e) fuel id args = EOk r ->
+       exists fuel' cr, call_fun (the_cfg names) (map (vfunc_bytes (the_cfg names)) (ev_funcs (load_units (the_cfg names) us e))) nat_fun fuel'
+                          (vfunc_bytes (the_cfg names) cf) args = RDone cr /\ result_matches r cr) /\
+    (forall w, call_sem (nat_sig (the_cfg names)) nat_fun (ev_srcs e) fuel id args = EPanic w -> w <> PIndex ->
+       exists fuel', call_fun (the_cfg names) (map (vfunc_bytes (the_cfg names)) (ev_funcs (load_units (the_cfg names) us e))) nat_fun fuel'
+                       (vfunc_bytes (the_cfg names) cf) args = RPanic w).
+Proof. intros names nat_fun e us. exact (Env.later_units_preserve_meaning (the_cfg names) nat_fun e us). Qed.
+
+(* while the loader compiles declaration k of a unit, the names the unit declares are bound to the unit's own
+   earlier declarations (at their own slots) and to nothing else *)
+Theorem load_unit_binds_own_unit : forall names u e k ek, NoDup (map fst u) ->
+  env_before (the_cfg names) k u (unbind_all u e) = Some ek ->
+  forall n, In n (map fst u) ->
+    map_get (ev_names ek) n = match index_name n (firstn k (map fst u)) 0 with
+                              | Some j => Some (id16 (len (ev_funcs e) + j))
+                              | None => None
+                              end.
+Proof. intros names. exact (Env.load_unit_binds_own_unit (the_cfg names)). Qed.
+
+(* hence a unit whose calls go to its own functions is compiled from the same resolved sources whatever was loaded
+   before it (up to the first free slot) *)
+Theorem unit_meaning_independent_of_history : forall names u e k ek n fd, NoDup (map fst u) ->
+  env_before (the_cfg names) k u (unbind_all u e) = Some ek -> nth_error u k = Some (n, fd) ->
+  (forall c, In c (callee_names fd) -> In c (map fst u)) ->
+  resolve_fun (ev_names ek) fd = resolve_fun (own_names (len (ev_funcs e)) (firstn k (map fst u))) fd.
+Proof. intros names. exact (Env.unit_meaning_independent_of_history (the_cfg names)). Qed.
+
 Print Assumptions compile_correct_partial.
+Print Assumptions later_units_preserve_meaning.
+Print Assumptions load_unit_binds_own_unit.
 Print Assumptions vm_frame_independent.
 Print Assumptions assemble_simulates.
 Print Assumptions natives_signatures_ok.
@@ -131,4 +176,41 @@ Proof. split; vm_compute; reflexivity. Qed.
 Theorem assemble_simulates_refuted_without_encodable :
   decode_at cfg0 (assemble cfg0 [I KPushConst 300]) 0 = Some (I KPushConst 44) /\
   decode_at cfg0 (assemble cfg0 [I KJump 40000]) 0 = Some (I KJump (-25536)).
+Proof. split; vm_compute; reflexivity. Qed.
+
+(* ---- histories: the hypotheses are satisfiable, and the theorem is about the table being append-only ---- *)
+(* two rules files declaring the same names:
+     a.go: func qf0() int { return 3 };   func qf1(s string) bool { return len(s) >= qf0() }
+     b.go: func qf0() int { return 100 }; func qf1(s string) bool { return len(s) >= qf0() }
+   (FUser carries the callee's name: 1000 = qf0, 1001 = qf1) *)
+Definition w_unit (k : Z) : nunit :=
+  [(1000, mkfun [] [TInt] [SReturn [EConst (-1) (CInt k)]]);
+   (1001, mkfun [(10, TStr)] [TBool]
+            [SReturn [EBinary OGeq TInt (ECall FLen TInt None [EIdent 10 TStr]) (ECall (FUser 1000 TInt) TInt None [])]])].
+Definition env_a := load_units cfg0 [w_unit 3] env_empty.
+Definition env_ab := load_units cfg0 [w_unit 3; w_unit 100] env_empty.
+Definition vm_env (e : env) (id : Z) (args : list value) : runres :=
+  match nthz (ev_funcs e) id with
+  | Some cf => call_fun cfg0 (map (vfunc_bytes cfg0) (ev_funcs e)) no_natives 400 (vfunc_bytes cfg0 cf) args
+  | None => ROutOfFuel
+  end.
+
+Example history_in_scope :
+  env_inv cfg0 env_a /\ in_scope cfg0 (ev_srcs env_a) (ev_funcs env_a) = true /\
+  List.length (ev_funcs env_a) = 2%nat /\ List.length (ev_funcs env_ab) = 4%nat /\
+  (* a.go's filter means len(s) >= 3 ... *)
+  call_sem (nat_sig cfg0) no_natives (ev_srcs env_a) 50 1 [VStr [97; 98; 99]] = EOk (Some (VBool true)) /\
+  (* ... and still computes that after b.go was loaded; b.go's filter (slot 3) computes len(s) >= 100 *)
+  vm_env env_ab 1 [VStr [97; 98; 99]] = RDone (mkres (VBool true) 0) /\
+  vm_env env_ab 3 [VStr [97; 98; 99]] = RDone (mkres (VBool false) 0) /\
+  (* both files' qf0 / qf1 are bound to b.go's functions afterwards *)
+  map_get (ev_names env_ab) 1000 = Some 2 /\ map_get (ev_names env_ab) 1001 = Some 3.
+Proof. repeat split; vm_compute; reflexivity. Qed.
+
+(* an environment that recycles the slot of an unbound function (b.go's qf0 written into slot 0) makes a.go's
+   filter call b.go's helper: the conclusion of later_units_preserve_meaning fails for such a table *)
+Theorem later_units_preserve_meaning_refuted_with_slot_reuse :
+  let reused := mkenv (set_nth (ev_funcs env_a) 0 (nth 2 (ev_funcs env_ab) (mkcfunc [] [] [] 0 0))) (ev_srcs env_a) (ev_names env_ab) in
+  call_sem (nat_sig cfg0) no_natives (ev_srcs env_a) 50 1 [VStr [97; 98; 99]] = EOk (Some (VBool true)) /\
+  vm_env reused 1 [VStr [97; 98; 99]] = RDone (mkres (VBool false) 0).
 Proof. split; vm_compute; reflexivity. Qed.
